@@ -1,11 +1,12 @@
 (** C12 — Scope failure signalling is safe from any number of goroutines.
-    Statements only; every proof is [exact <lemma of Proofs/Scope.v>].
+    Statements only; every proof is [exact <lemma of Proofs/Scope.v or Proofs/C12More.v>]
+    (the second half, added by the proof audit, starts at C12_done_never_closed_twice).
     System: [init progs] = any number of threads, each with any list of operations (contexts,
     root scopes, children and isolated children are created by operations, so every tree shape
     is covered); [run cfg_current sched] = any interleaving of their micro-steps (Model/Scope.v).
     [cfg_current] = the code as it is: Stop is one locked test-and-close (F19), NewChild remembers
     the registration only if the parent accepted it (F20), closed is set after the wait (b43446f). *)
-From GC Require Import Common.Base Model.Scope Proofs.Scope.
+From GC Require Import Common.Base Model.Scope Model.ScopeLive Proofs.Scope Proofs.ScopeLive Proofs.C12More.
 From Coq Require Import ZArith Permutation.
 Local Open Scope nat_scope.
 
@@ -157,4 +158,149 @@ Example C12_example_child_of_done :
      (init [[ONewRoot; OKill 0; ONewChild 0 false; ONewChild 0 true; OClose 1; OClose 2; OClose 0]]) in
   all_panics st = [] /\ map s_wg (scopes (sh st)) = [0; 0; 0]%Z /\
   t_out (nth 0 (ths st) (mk_thread [])) = [OClosed 1 true; OClosed 2 false; OClosed 0 true].
+Proof. vm_compute. repeat split. Qed.
+
+(** * Second half (proof audit): the clauses at full strength *)
+
+(** 'The done signal fires exactly once', at-most-once half, with NO hypothesis on the programs
+    (Close, DoneTask, Wait, anything): close(done) is never executed on a closed channel - no
+    thread ever observes [PChan].  (C12_no_panic says so only for programs without Close/DoneTask;
+    C12_child_of_done only without DoneTask.)  False before F19: C12_F19_refuted. *)
+Theorem C12_done_never_closed_twice : forall progs sched th,
+  In th (ths (run cfg_current sched (init progs))) ->
+  Forall (fun o => chan_panic o = false) (t_out th).
+Proof. exact (fun progs sched th => never_closed_twice cfg_current progs sched th eq_refl). Qed.
+Print Assumptions C12_done_never_closed_twice.
+
+(** ... and the other half of 'exactly': done is never on without a reason.  In every reachable
+    state of ANY programs, a context that is done has (1) a completed AppendError(non-nil) / Kill /
+    Stop of one of the callers (threads below [length progs] are the programs; the threads above are
+    the watcher goroutines of isolated contexts), or (2) a listener error appended by a Close, or
+    (3) it is an isolated context whose parent is done.  Together with C12_done_once (on after every
+    completed signalling call, never off again) this characterises the done flag. *)
+Theorem C12_done_only_for_a_reason : forall progs sched c,
+  let st := run cfg_current sched (init progs) in
+  c_done (getc (sh st) c) = true ->
+  (exists m th es, m < length progs /\ nth_error (ths st) m = Some th /\ In (c, es) (t_acks th)) \/
+  c_sys (getc (sh st) c) <> [] \/
+  (exists p, c_iso (getc (sh st) c) = Some p /\ c_done (getc (sh st) p) = true).
+Proof. exact done_cause. Qed.
+Print Assumptions C12_done_only_for_a_reason.
+
+(** 'Every appended error is retained AND REPORTED by the accessors, by waiting and by closing',
+    end to end: once a call that appended [e] to context [c] has completed (it is in the caller's
+    [t_acks] after the schedule prefix [s1]), then after ANY continuation [s2] of ANY programs the
+    completion is still recorded, [e] is in the list, Err on [c] answers true, a Wait on a scope of
+    [c] that gets through hands over to that Err, and a Close of a scope of [c] that reaches its
+    return statement returns an error.  (C12_accessors states the accessors for an arbitrary shared
+    state without tying them to completed calls.) *)
+Theorem C12_reported : forall progs s1 s2 n th c es e,
+  nth_error (ths (run cfg_current s1 (init progs))) n = Some th ->
+  In (c, es) (t_acks th) -> In e es ->
+  let st := run cfg_current (s1 ++ s2) (init progs) in
+  (exists th', nth_error (ths st) n = Some th' /\ thext th th') /\
+  In e (c_errors (getc (sh st) c)) /\
+  (forall b, exec cfg_current b (IErr c) (sh st) = XOk (sh st) [] [OBool true] [] []) /\
+  (forall b s, valids (sh st) s = true -> s_ctx (gets (sh st) s) = c -> s_wg (gets (sh st) s) = 0%Z ->
+     exec cfg_current b (IWait s) (sh st) = xpush (sh st) [IErr c]) /\
+  (forall s, s_ctx (gets (sh st) s) = c -> s_pc (gets (sh st) s) = CRet ->
+     close_step cfg_current (sh st) s = XOk (set_pc (sh st) s CFinished) [] [OClosed s true] [] []).
+Proof. exact reported. Qed.
+Print Assumptions C12_reported.
+
+(** 'No call panics' and 'creating and closing a child of a scope that is already done is equally
+    safe' with Close IN the programs and the conclusion NO PANIC AT ALL (C12_child_of_done allows the
+    refusals by design; C12_no_panic has no Close).  Discipline [disciplined] (Proofs/C12More.v): no
+    DoneTask; every scope is closed at most once; a scope that some program closes is signalled,
+    given listeners or children only by the closing thread, earlier in its program.  Any number of
+    other threads signal the scopes that are never closed (the done parent) and the bare contexts,
+    in any interleaving with the creation and closing of children that share those contexts.
+    Second conjunct: an operation about to signal / register on / hang a child under a scope always
+    finds that scope's Close not started - in particular NewChild never meets a closed parent, the
+    one case Model/Scope.v does not cover.  Supersedes C12_no_panic ([safe_disciplined]). *)
+Theorem C12_no_panic_closing : forall progs sched,
+  disciplined progs ->
+  let st := run cfg_current sched (init progs) in
+  all_panics st = [] /\
+  (forall th o r s, In th (ths st) -> t_cur th = [] -> t_todo th = o :: r -> target o = Some s ->
+     s_pc (gets (sh st) s) = CNone).
+Proof. exact (fun progs sched => no_panic_closing cfg_current progs sched eq_refl eq_refl). Qed.
+Print Assumptions C12_no_panic_closing.
+
+(** No call hangs either: signalling is wait-free.  From ANY state (reachable or not), a thread
+    whose remaining program has no Close and no Wait (1) can take its next micro-step whichever way
+    the choice bit falls, stays in that class and loses weight; (2) is untouched by the micro-steps
+    of every other thread; hence (3) under ANY schedule it has finished all its calls once it has been
+    scheduled [thw] times, whatever the others do (a Close parked on its tasks, watchers, ...);
+    (4) [thw] is at most 12 micro-steps per operation. *)
+Theorem C12_wait_free :
+  (forall cf n b st th, nth_error (ths st) n = Some th -> free_thread th = true -> finished th = false ->
+     exists st' th', step cf (n, b) st = Some st' /\ nth_error (ths st') n = Some th' /\
+                     free_thread th' = true /\ thw th' < thw th) /\
+  (forall cf m b st st' n th, step cf (m, b) st = Some st' -> m <> n ->
+     nth_error (ths st) n = Some th -> nth_error (ths st') n = Some th) /\
+  (forall cf sched st n th, nth_error (ths st) n = Some th -> free_thread th = true ->
+     thw th <= occ n sched ->
+     exists th', nth_error (ths (run cf sched st)) n = Some th' /\ finished th' = true) /\
+  (forall ops, forallb free_op ops = true -> thw (mk_thread ops) <= 12 * length ops).
+Proof. exact (conj free_step (conj other_step (conj wait_free free_weight))). Qed.
+Print Assumptions C12_wait_free.
+
+(** Non-vacuity of the second half. *)
+(** done for each of the three reasons alone: a caller (context 0 of the running example), a
+    watcher after the parent's end (context 3: no caller ever touched it), a listener error *)
+Example C12_reason_examples :
+  let st := run cfg_current ex_sched (init ex_progs) in
+  (c_done (getc (sh st) 0) = true /\ c_sys (getc (sh st) 0) = [] /\ c_iso (getc (sh st) 0) = None) /\
+  (c_done (getc (sh st) 3) = true /\ c_sys (getc (sh st) 3) = [] /\
+   flat_map (fun th => acked 3 (t_acks th)) (firstn 4 (ths st)) = [] /\ c_iso (getc (sh st) 3) = Some 1) /\
+  let st2 := run cfg_current (repeat (t 0) 20) (init [[ONewRoot; OOn 0 EBeforeClose 1 (Some 9%N); OClose 0]]) in
+  c_done (getc (sh st2) 0) = true /\ c_sys (getc (sh st2) 0) = [9%N] /\
+  map t_acks (ths st2) = [[]] /\ c_iso (getc (sh st2) 0) = None.
+Proof. vm_compute. repeat split. Qed.
+
+(** a completed call to start from (premises of C12_reported) *)
+Example C12_reported_example :
+  exists th, nth_error (ths (run cfg_current ex_sched (init ex_progs))) 1 = Some th /\
+             In (0, [1; 2]%N) (t_acks th) /\ In 2%N [1; 2]%N.
+Proof. eexists. vm_compute. split; [reflexivity|]. split; [left; reflexivity|right; left; reflexivity]. Qed.
+
+(** disciplined programs: the child-of-done example (kill, children, closes, all in one thread) and
+    a concurrent one - thread 1 and 2 signal the never-closed root 0 and the bare context 1 while
+    threads 3 and 4 create a shared and an isolated child of 0 and close them *)
+Definition mix_progs : list (list op) :=
+  [[ONewRoot; ONewCtx]; [OKill 0; OAppendError 0 [Some 5%N]]; [OStop 0; OCKill 1; OIsDone 0];
+   [ONewChild 0 false; OErr 1; OClose 1]; [ONewChild 0 true; OAppendError 2 [Some 6%N]; OClose 2]].
+Definition mix_sched : list tid :=
+  repeat (t 0) 2 ++ flat_map (fun _ => [t 4; t 1; t 3; t 2; (5, true); (6, true)]) (seq 0 40).
+Definition cod_progs : list (list op) :=
+  [[ONewRoot; OKill 0; ONewChild 0 false; ONewChild 0 true; OClose 1; OClose 2; OClose 0]].
+
+Example C12_disciplined_examples : disciplined cod_progs /\ disciplined mix_progs /\ disciplined ex_progs.
+Proof.
+  split; [|split]; (split; [vm_compute; repeat constructor; simpl; intuition discriminate
+                           |repeat constructor]).
+Qed.
+Example C12_mix_run :
+  let st := run cfg_current mix_sched (init mix_progs) in
+  all_panics st = [] /\ map s_pc (scopes (sh st)) = [CNone; CFinished; CFinished] /\
+  map (fun th => isnil (t_cur th) && isnil (t_todo th)) (ths st) = [true; true; true; true; true; true].
+Proof. vm_compute. repeat split. Qed.
+(** the discipline is needed: a signal after the Close of the same scope, and a second Close *)
+Example C12_discipline_needed :
+  all_panics (run cfg_current (repeat (t 0) 40) (init [[ONewRoot; OClose 0; OKill 0]])) = [OPanic PClosed] /\
+  all_panics (run cfg_current (repeat (t 0) 10 ++ repeat (t 1) 10) (init [[ONewRoot; OClose 0]; [OClose 0]]))
+    = [OPanic PDouble].
+Proof. vm_compute. split; reflexivity. Qed.
+
+(** wait-free: thread 2 signals a scope whose Close (thread 1) is parked on a task nobody finishes;
+    31 = thw slots later it has finished, the Close is still parked *)
+Definition wf_progs : list (list op) :=
+  [[ONewRoot; OAddTasks 0]; [OClose 0]; [OKill 0; OStop 0; OAppendError 0 [Some 1%N]]].
+Example C12_wait_free_example :
+  let st0 := run cfg_current (repeat (t 0) 2 ++ repeat (t 1) 5) (init wf_progs) in
+  map free_thread (ths st0) = [true; false; true] /\ map thw (ths st0) = [0; 1; 31] /\
+  let st1 := run cfg_current (flat_map (fun _ => [t 1; t 2]) (seq 0 31)) st0 in
+  map finished (ths st1) = [true; false; true] /\ all_panics st1 = [] /\
+  map t_cur (ths st1) = [[]; [IRunClose 0]; []] /\ errs_of (sh st1) 0 = [Canceled; 1%N].
 Proof. vm_compute. repeat split. Qed.
